@@ -37,3 +37,10 @@ cp "$REPO/go.sum" "$GT/go.sum"
 (cd "$GT" && go build -tags verif -o "$BUILD/gentables" .)
 "$BUILD/gentables" > "$BUILD/StlTables.v.new"
 if ! cmp -s "$BUILD/StlTables.v.new" "$HERE/coq/Gen/StlTables.v"; then cp "$BUILD/StlTables.v.new" "$HERE/coq/Gen/StlTables.v"; fi
+
+# ---- constants of the source (tools/genconsts: go/packages over the repository, no build tag needed)
+if [ ! -x "$BUILD/genconsts" ] || [ "$HERE/tools/genconsts/main.go" -nt "$BUILD/genconsts" ]; then
+  (cd "$HERE/tools/genconsts" && go build -o "$BUILD/genconsts" .)
+fi
+"$BUILD/genconsts" "$REPO" "$BUILD/funcs.json" > "$BUILD/Consts.v.new"
+if ! cmp -s "$BUILD/Consts.v.new" "$HERE/coq/Gen/Consts.v"; then cp "$BUILD/Consts.v.new" "$HERE/coq/Gen/Consts.v"; fi
